@@ -42,7 +42,7 @@ def cases(tier, seed):
         for c in range(nchunk):
             out.append(dict(id="plan:%s:%d" % (case, c), kind="plan", case=case, tf=tf, base=b, nrand=(2 if tier == "quick" else 30),
                             fresh=(1 if tier == "quick" else 6), chunk=c, nchunk=nchunk, timeout=1800))
-    for case in (RESET_CASES[:5] if tier == "quick" else RESET_CASES):
+    for case in (RESET_CASES[:6] if tier == "quick" else RESET_CASES):
         out.append(dict(id="reset:%s" % case, kind="reset", case=case))
     return out
 
@@ -310,7 +310,8 @@ def run_plan(spec, res):
                           worst_over_bound=res.obs.get("max_final_difference_over_bound"), bit_identical=res.obs.get("bit_identical_continuations", 0))
 
 
-RESET_CASES = ["kundur/kundur_full.xlsx", "ieee14/ieee14_fault.xlsx", "ieee14/ieee14.raw", "ieee39/ieee39_full.xlsx", "5bus/pjm5bus.xlsx",
+RESET_CASES = ["ieee14/ieee14_conn.xlsx",      # a bus out of service whose devices are given as in service: status propagation must be redone
+               "kundur/kundur_full.xlsx", "ieee14/ieee14_fault.xlsx", "ieee14/ieee14.raw", "ieee39/ieee39_full.xlsx", "5bus/pjm5bus.xlsx",
                "wecc/wecc_full.xlsx", "npcc/npcc.xlsx", "matpower/case118.m", "ieee14/ieee14_pvd1.xlsx", "kundur/kundur_vsc.xlsx"]
 
 
